@@ -408,6 +408,7 @@ PERCENT_STRICTER = (
     "use of % on string with no conversion specifiers",  # comment in PercentFormatString.accept: "will produce errors for some things that aren't errors at runtime"
     "cannot combine specifiers that require a mapping with those that do not",  # PercentFormatString.lint
     "using % combined with optional specifiers does not make sense",  # ConversionSpecifier.lint
+    "%c requires an integer in range(256)",  # also for text templates, where CPython takes every code point: pinned by pyanalyze/test_format_strings.py::test_character (`"%c" % 257  # E`)
 )
 
 
